@@ -364,7 +364,7 @@ def run(tier, seed):
             try:
                 if isinstance(s_, tuple):
                     body = pyenc.encode(toks, prng, s_[1], None, maximal=True, intval=1)
-                    cap = (10240 if directions(c)[0] == "client" else 0xFFFF if libname(c) != "wrath" else 0x7FFFFF) - 16
+                    cap = (10240 if directions(c)[0] == "client" else 0xFFFF) - 16      # also in Wrath: the published limit of an endless (here: compressed) member is 65 535 bytes on the wire
                     zb = (4 + len(zlib.compress(body))) if "zmsg_tokens" in c else len(body)
                     if zb > cap:
                         continue
